@@ -133,6 +133,13 @@ func c18Check(c C18Case) (r evid.Result) {
 	r.Class(strings.HasPrefix(c.Query, "{"), "log-query")
 	r.Class(len(c.Waves) == 2, "binary-operation")
 	r.Class(c.Limit > 0, "limited")
+	oddKeys := false
+	for _, l := range c.Labels {
+		for k := range l {
+			oddKeys = oddKeys || strings.HasPrefix(l[k], "odd ")
+		}
+	}
+	r.Class(oddKeys, "odd-docker-label-keys")
 	r.Class(nSeries >= 2, "series>=2")
 	r.NonTrivial = n >= 3 && nSeries >= 2 && nMulti >= 2
 	return r
@@ -154,6 +161,7 @@ func c18Gen(t *rapid.T) C18Case {
 	}
 	base := int64(1700000000) * 1e9
 	collide := rapid.IntRange(0, 3).Draw(t, "colliding-label-keys") == 0
+	odd := rapid.IntRange(0, 3).Draw(t, "odd-label-keys") == 0
 	for i := 0; i < n; i++ {
 		m := rapid.IntRange(0, 8).Draw(t, "lines")
 		var lines []dl.Line
@@ -173,6 +181,14 @@ func c18Gen(t *rapid.T) C18Case {
 			// value the name gets, it has to be the same one on every run.
 			for _, k := range rapid.SampledFrom([][]string{{"a.b", "a_b"}, {"a.b", "a-b", "a/b"}, {"x y", "x_y"}, {"1st", "_1st"}}).Draw(t, "colliding-keys") {
 				labels[k] = "from " + k
+			}
+		}
+		if odd {
+			// Rare but legal keys: names with the prefix of the engine's own labels, names of the
+			// container attributes, a lone underscore. Whatever becomes of them has to be the
+			// same on every run, and the other labels of the container must not depend on them.
+			for _, k := range rapid.SliceOfNDistinct(rapid.SampledFrom([]string{"__meta", "__error__", "__error_details__", "._x", "--foo", "_", "__name__", "container", "container_id", "container_name", "msg", "0", "\u00fcber", "image", "com.docker.compose.service"}), 1, 3, rapid.ID[string]).Draw(t, "odd-keys") {
+				labels[k] = "odd " + k
 			}
 		}
 		c.Labels = append(c.Labels, labels)
